@@ -74,10 +74,13 @@ structure St where
   order : List Nat
 deriving DecidableEq, Repr
 
+/-- `exploring[i]` / `visited[i]` (indices are always in range, see `hadj` in the lemmas) -/
+def flag (l : List Bool) (i : Nat) : Bool := l.getD i false
+
 /-- one iteration of `for target in self.edges_dict[source]` -/
 def stepFn (rec : Nat → St → Except Err St) (u : Nat) (s : St) (v : Nat) : Except Err St :=
-  if s.exploring.getD v false then .error (.cycle u v)
-  else if !(s.visited.getD v false) then rec v s
+  if flag s.exploring v then .error (.cycle u v)
+  else if !(flag s.visited v) then rec v s
   else .ok s
 
 /-- `topological_sort(source, exploring, visited, order)` -/
@@ -90,7 +93,7 @@ def visit (adj : Nat → List Nat) : Nat → Nat → St → Except Err St
 
 /-- the loop of `get_topological_order`, on indices -/
 def topoIdx (adj : Nat → List Nat) (n : Nat) : Except Err (List Nat) :=
-  match (List.range n).foldlM (fun s u => if !(s.visited.getD u false) then visit adj (n+1) u s else .ok s)
+  match (List.range n).foldlM (fun s u => if !(flag s.visited u) then visit adj (n+1) u s else .ok s)
       ⟨List.replicate n false, List.replicate n false, []⟩ with
   | .error e => .error e
   | .ok s => .ok s.order
@@ -100,15 +103,18 @@ inductive TopoErr (α : Type) where
   | cycle (u v : α)          -- `ValueError("Graph has cycles, found while checking u --> v")`
 deriving DecidableEq, Repr
 
-/-- `get_topological_order()` -/
-def getTopologicalOrder {α : Type} (g : DG α) : Except (TopoErr α) (List α) :=
-  match topoIdx (adj g) g.nodes.length with
+/-- `[self.nodes[n] for n in order]`, resp. the two names in the error message -/
+def nameResult {α : Type} (g : DG α) : Except Err (List Nat) → Except (TopoErr α) (List α)
   | .ok o => .ok (o.filterMap (fun i => g.nodes[i]?))
   | .error (.cycle u v) =>
     match g.nodes[u]?, g.nodes[v]? with
     | some a, some b => .error (.cycle a b)
     | _, _ => .error .internal
   | .error .fuel => .error .internal
+
+/-- `get_topological_order()` -/
+def getTopologicalOrder {α : Type} (g : DG α) : Except (TopoErr α) (List α) :=
+  nameResult g (topoIdx (adj g) g.nodes.length)
 
 /-- build + sort: what the driver exposes as `topo` -/
 def topo {α : Type} [DecidableEq α] (es : List (α × α)) : Except (TopoErr α) (List α) :=
@@ -195,10 +201,11 @@ def prefixesOf (target : String) : List String := (prefixesL target.toList).map 
 
 /-! ### `ActionLink.instantiation_order` -/
 
-/-- stable insertion by an ascending `Nat` key (Python `sorted(..., key=...)`) -/
+/-- stable insertion by an ascending `Nat` key (Python `sorted(..., key=...)`): `x` precedes everything in the list,
+    so it goes before the first element whose key is not smaller -/
 def insertAsc {γ : Type} (k : γ → Nat) (x : γ) : List γ → List γ
   | [] => [x]
-  | y :: r => if k y ≤ k x then y :: insertAsc k x r else x :: y :: r
+  | y :: r => if k y < k x then y :: insertAsc k x r else x :: y :: r
 
 def sortAsc {γ : Type} (k : γ → Nat) : List γ → List γ
   | [] => []
@@ -244,7 +251,7 @@ def instantiationOrder (links : List Link) (setOrder : List String) : Except (To
 /-- `components.sort(key=lambda x: -len(split_key(x.dest)))`: stable, deepest first -/
 def insertDesc {γ : Type} (k : γ → Nat) (x : γ) : List γ → List γ
   | [] => [x]
-  | y :: r => if k x ≤ k y then y :: insertDesc k x r else x :: y :: r
+  | y :: r => if k x < k y then y :: insertDesc k x r else x :: y :: r
 
 def sortDesc {γ : Type} (k : γ → Nat) : List γ → List γ
   | [] => []
